@@ -9,6 +9,7 @@ import (
 	"crypto/sha256"
 	"encoding/json"
 	"fmt"
+	"runtime"
 	"sync"
 
 	"github.com/Trisia/randomness"
@@ -176,12 +177,21 @@ func concurrentCmd(job []byte, out *Out) error {
 	for t := 1; t <= 17; t++ {
 		probeRes[t] = runTask(t, probe)
 	}
-	// solitary results (twice: determinism)
+	// solitary results (twice: determinism) of the (input, test) pairs the plans use
+	needed := map[[2]int]bool{}
+	for _, pl := range j.Plans {
+		for _, tk := range pl.Tasks {
+			needed[[2]int{tk.Input, tk.Test}] = true
+		}
+	}
 	for i := range inputs {
 		sol[i] = make([]string, 18)
 		solBits[i] = make([]string, 18)
 		bits := randomness.B2bitArr(inputs[i])
 		for t := 1; t <= 17; t++ {
+			if !needed[[2]int{i, t}] {
+				continue
+			}
 			sol[i][t] = runTask(t, inputs[i])
 			if runTask(t, inputs[i]) != sol[i][t] {
 				repeatMismatch++
@@ -222,6 +232,12 @@ func concurrentCmd(job []byte, out *Out) error {
 		for round := 0; round < pl.Rounds; round++ {
 			var wg sync.WaitGroup
 			start := make(chan struct{})
+			// every other plan (and every other round) runs with five processors visible to the runtime instead of all: the
+			// solitary results were obtained with all of them, and a result must not depend on that number
+			prevProcs := runtime.GOMAXPROCS(0)
+			if (pl.ID+round)%2 == 1 {
+				runtime.GOMAXPROCS(5)
+			}
 			for g, tk := range pl.Tasks {
 				wg.Add(1)
 				go func(g int, tk task) {
@@ -252,6 +268,7 @@ func concurrentCmd(job []byte, out *Out) error {
 			}
 			close(start)
 			wg.Wait()
+			runtime.GOMAXPROCS(prevProcs)
 		}
 		mutated := false
 		if sha256.Sum256(capture) != captureHash {
